@@ -12,7 +12,8 @@ import Driver.Engine
     hf fam <k>                 formula family for the remaining keys
     set <p|h> <k0> <k1> …      current sequence := keys (ids = positions); h = prehashed (parallel hash array)
     gen <p|h> <n> <K> <seed>   current sequence := n keys below K from the shared LCG
-    sort                       HashSorter::Sort / SortPrehashed on the current sequence; prints ids [| hashes]
+    sort                       HashSorter::Sort / SortPrehashed on the current sequence; prints ids [| hashes] ; swaps chk
+                               (swaps = number of iterSwapper calls, chk = order-sensitive checksum of their index pairs)
     sortsum                    same, prints `n chk(ids) chk(hashes)`
     is                         IsSorted / IsSortedPrehashed
     fd <key>                   Find / FindPrehashed            -> `<index> <found>`
@@ -76,14 +77,14 @@ def chk (xs : Array Nat) : Nat := xs.foldl (fun c x => (c * 1000003 + x + 1) % M
 def withKeys (st : St) (pre : Bool) (items : Array (Nat × Nat)) : St :=
   { st with pre := pre, items := items, hashes := if pre then items.map (fun it => st.hash it.1) else #[] }
 
-/-- HashSorter::Sort / SortPrehashed on the current sequence -/
-def doSort (st : St) : Option St :=
+/-- HashSorter::Sort / SortPrehashed on the current sequence; also returns the swap log (count, checksum) -/
+def doSort (st : St) : Option (St × Nat × Nat) :=
   if st.pre then
-    (hashSort (preMem (α := Nat × Nat)) keyEq (st.items, st.hashes) st.items.size).map
-      fun r => { st with items := r.1, hashes := r.2 }
+    (hashSort (tracedMem (preMem (α := Nat × Nat))) keyEq ((st.items, st.hashes), 0, 0) st.items.size).map
+      fun r => ({ st with items := r.1.1, hashes := r.1.2 }, r.2.1, r.2.2)
   else
-    (hashSort (plainMem (fun it : Nat × Nat => st.hash it.1)) keyEq st.items st.items.size).map
-      fun r => { st with items := r }
+    (hashSort (tracedMem (plainMem (fun it : Nat × Nat => st.hash it.1))) keyEq (st.items, 0, 0) st.items.size).map
+      fun r => ({ st with items := r.1 }, r.2.1, r.2.2)
 
 def doIsSorted (st : St) : Option Bool :=
   if st.pre then isSorted (preMem (α := Nat × Nat)) keyEq (st.items, st.hashes) st.items.size
@@ -97,8 +98,8 @@ def doBounds (st : St) (key : Nat) : Option (Nat × Nat) :=
   if st.pre then getBounds (preMem (α := Nat × Nat)) keyEq (st.items, st.hashes) st.items.size (key, 0) (st.hash key)
   else getBounds (plainMem (fun it : Nat × Nat => st.hash it.1)) keyEq st.items st.items.size (key, 0) (st.hash key)
 
-def doRadix (R W : Nat) (items : Array (Nat × Nat)) : Option (Array (Nat × Nat)) :=
-  radixSorterSort (plainMem (fun it : Nat × Nat => it.1)) R W noGroupFn items items.size
+def doRadix (R W : Nat) (items : Array (Nat × Nat)) : Option (Array (Nat × Nat) × Nat × Nat) :=
+  radixSorterSort (tracedMem (plainMem (fun it : Nat × Nat => it.1))) R W noGroupFn (items, 0, 0) items.size
 
 def idsOf (items : Array (Nat × Nat)) : List Nat := items.toList.map (·.2)
 
@@ -119,12 +120,13 @@ def step (st : St) : List String → St × String
   | ["gen", mode, n, K, seed] => (withKeys st (mode == "h") (genKeys (nat! n) (nat! K) (nat! seed)), "ok")
   | ["sort"] =>
       match doSort st with
-      | some st' =>
-        (st', if st'.pre then joinNat (idsOf st'.items) ++ " | " ++ joinNat st'.hashes.toList else joinNat (idsOf st'.items))
+      | some (st', n, k) =>
+        (st', (if st'.pre then joinNat (idsOf st'.items) ++ " | " ++ joinNat st'.hashes.toList else joinNat (idsOf st'.items))
+          ++ s!" ; {n} {k}")
       | none => (st, "E:model")
   | ["sortsum"] =>
       match doSort st with
-      | some st' => (st', s!"{st'.items.size} {chk (st'.items.map (·.2))} {chk st'.hashes}")
+      | some (st', n, k) => (st', s!"{st'.items.size} {chk (st'.items.map (·.2))} {chk st'.hashes} ; {n} {k}")
       | none => (st, "E:model")
   | ["is"] =>
       match doIsSorted st with
@@ -140,11 +142,11 @@ def step (st : St) : List String → St × String
       | none => (st, "E:model")
   | "rs" :: R :: W :: cs =>
       match doRadix (nat! R) (nat! W) (indexed (cs.map nat!)) with
-      | some r => (st, joinNat (idsOf r))
+      | some (r, n, k) => (st, joinNat (idsOf r) ++ s!" ; {n} {k}")
       | none => (st, "E:model")
   | ["rgen", R, W, n, seed, bits] =>
       match doRadix (nat! R) (nat! W) (genCodes (nat! n) (nat! seed) (nat! bits)) with
-      | some r => (st, s!"{r.size} {chk (r.map (·.2))}")
+      | some (r, n, k) => (st, s!"{r.size} {chk (r.map (·.2))} ; {n} {k}")
       | none => (st, "E:model")
   | _ => (st, "bad-op")
 
